@@ -112,7 +112,7 @@ PROPS = {
         "projection": "each call's result; no-receiver / duplicate / unsupported log counts",
         "mismatch_is_input": True,
         "timeout": {"quick": 1500, "thorough": 6000},
-        "level_text": "Coq theorems on the waiter mechanism (Model/Waiters.v: Do/register/recv/handleResponse/onPacket routing/Packet.Err/reconnect sweep) for every action list, i.e. every interleaving of any number of calls with ARBITRARY dispatched packets (permuted, duplicated, late, unknown or stale ids, pushes, peer requests): a finished call holds only a packet with its own request id that was routed to waiters (or timeout / lost connection / write error); a finished call never changes; unsolicited and duplicate responses leave exactly one log line; status 0 is success, every other status the typed error with the body's code/message or the 500 fallback. Tie: scripted peer over TCP and WebSocket, v1/v2, k<=8 concurrent calls, scripted packet lists, all 256 statuses; the forced history is replayed by the model and compared per call.",
+        "level_text": "Coq theorems on the waiter mechanism (Model/Waiters.v: Do/register/recv/handleResponse/onPacket routing/Packet.Err/reconnect sweep) for every action list, i.e. every interleaving of any number of calls with ARBITRARY dispatched packets (permuted, duplicated, late, unknown or stale ids, pushes, peer requests): a finished call holds only a packet with its own request id that was routed to waiters (or timeout / lost connection / write error); a finished call never changes; unsolicited and duplicate responses leave exactly one log line; status 0 is success, every other status the typed error with the body's code/message or the 500 fallback. Tie: scripted peer over TCP and WebSocket, v1/v2, k<=8 concurrent calls, scripted packet lists, all 256 statuses; the forced history is replayed by the model and compared per call. The returned packet is a response frame with status success carrying the call's id (C05_returned_packet_is_a_response); request or push frames with the AUTH / RECONNECT command are ignored.",
         "level_note": "Trusted: kernel, extraction, harness incl. scripted peers and the reference codec; proto.Unmarshal of control.Error is an oracle (per-case table). Mechanism model: the rest of the client is an adversarial environment (more behaviours than the real one). Note: AUTH/RECONNECT-command packets of any type are routed to waiters by handleControl (modelled as written; returns_own_id still holds).",
         "assumptions": ["request ids of one connection context are distinct (C19) and fewer than 2^32 calls", "proto.Unmarshal(control.Error) as observed per case"],
         "modelled": "client.Do, register, recv, handleResponse, onPacket/handleControl routing, Packet.Err, the waiter sweep of reconnect()",
